@@ -2,7 +2,10 @@ package rest
 
 import (
 	"context"
+	"crypto/tls"
+	"io"
 	"math/big"
+	"net/http"
 	"testing"
 	"time"
 
@@ -41,5 +44,44 @@ func TestVerif_C09_Replay(t *testing.T) {
 	}
 	if err := cfg.VerifyPeerCertificate([][]byte{real.der}, nil); err == nil {
 		t.Fatalf("C09 VIOLATION key=c09-revoked-accepted: a revoked certificate was accepted")
+	}
+}
+
+// D15: certificate revoked after a successful handshake; the next connection of the same client
+// resumes the TLS session and must not be served as the owner any more.
+func TestVerif_C09_Replay_ResumedSession(t *testing.T) {
+	chain := c09NewChain()
+	owner := c09Tenants[0]
+	now := time.Now()
+	c := c09Make(c09Spec{cn: owner.String(), serial: big.NewInt(778), notBefore: now.Add(-48 * time.Hour), notAfter: now.Add(48 * time.Hour), clientAuth: true})
+	if err := chain.k.CreateCertificate(chain.ctx, owner, c.pem, c.pub); err != nil {
+		t.Fatalf("register: %v", err)
+	}
+	rec := &c09Recorder{}
+	ts := c09Server(chain, rec)
+	defer ts.Close()
+	hc := &http.Client{Timeout: 20 * time.Second, Transport: &http.Transport{
+		TLSClientConfig: &tls.Config{Certificates: []tls.Certificate{c.tls}, InsecureSkipVerify: true, MinVersion: tls.VersionTLS13, // nolint: gosec
+			ClientSessionCache: tls.NewLRUClientSessionCache(4)},
+		DisableKeepAlives: true,
+	}}
+	reached := func() int {
+		resp, err := hc.Get(ts.URL + "/lease/1/1/1/status")
+		if err == nil {
+			_, _ = io.Copy(io.Discard, resp.Body)
+			resp.Body.Close()
+		}
+		rec.mu.Lock()
+		defer rec.mu.Unlock()
+		return len(rec.leases)
+	}
+	if reached() != 1 {
+		t.Fatalf("C09 VIOLATION key=c09-genuine-not-served: the registered certificate was not served")
+	}
+	if err := chain.k.RevokeCertificate(chain.ctx, ctypes.CertID{Owner: owner, Serial: *big.NewInt(778)}); err != nil {
+		t.Fatal(err)
+	}
+	if n := reached(); n != 1 {
+		t.Fatalf("C09 VIOLATION key=c09-revoked-served: after the certificate was revoked on chain a new connection of the same client (resumed TLS session) was still served as %s", owner)
 	}
 }
